@@ -16,11 +16,10 @@ from hv.ref import raw
 def gen_case(rnd, tier: str, i: Any, **over: Any) -> Dict[str, Any]:
     n_ranks = rnd.choice([1, 1, 1, 2])
     first_step = rnd.randint(3, 500)
+    n_steps = rnd.choice([0, 1, 1, 2, 2, 3, 3, 5])    # every rank carries the same step set
     files, truths = {}, {}
     for r in range(n_ranks):
-        p = gen_sim.random_params(rnd, tier, rank=r, first_step=first_step, avoid_k1=True)
-        if p["n_steps"] == 0 and rnd.random() < 0.7:
-            p["n_steps"] = rnd.choice([1, 2, 3])
+        p = gen_sim.random_params(rnd, tier, rank=r, first_step=first_step, avoid_k1=True, n_steps=n_steps)
         p.update(over)
         tr, truth = gen_sim.gen_trace_with_truth(rnd, **p)
         files[f"rank{r}.json"] = tr
